@@ -334,6 +334,28 @@ CHECKS = {
              "(cfg capy_verif). Trusted: TLC, the harness' term -> Ty construction, gcc.",
         technique="TLA+ trace validation of the exhaustively recorded layout table (TLC)",
         ref="DESIGN.md section 4 C17"),
+    "C18": dict(
+        engine="Layout/Reflect",
+        category="model_checking",
+        text="Reflect.tla prescribes, from Layout.tla's representation rules (validated against "
+             "the code generator's own layout tables by C17), what core.meta must report for "
+             "every type of its universe - size / align / stride; integer width and signedness; "
+             "array length and element; slice / pointer / distinct sub type and pointer "
+             "mutability; struct member names, types and offsets; enum variants with "
+             "discriminants and the tag offset; optional and error-union parts and tag offsets - "
+             "what address arithmetic on real values must show (member and element address "
+             "differences) and the type-equality matrix (the identity: TLC checks the universe "
+             "pairwise different and the descriptions consistent with the rules). One generated "
+             "program reflects all 45 types at run time through a generic walk over Type_Info, "
+             "measures addresses on real memory, evaluates size_of / align_of / stride_of inside "
+             "comptime, compares every pair of type values and wraps values into `any`; its "
+             "output is compared line by line with the prescription.",
+        note="One universe for both tiers (45 types, 152 prescribed lines). Type identity of "
+             "members is observed through (size, align) of the reported member type plus the "
+             "equality matrix. Known finding F18 (usize == u64, isize == i64). Trusted: TLC, "
+             "Layout.tla (C17), core's print for numbers and names, gcc as linker.",
+        technique="TLA+ prescription from the layout model (TLC) + spec-to-implementation replay",
+        ref="DESIGN.md section 4 C18"),
     "C20": dict(
         engine="Repro/OrderIndep",
         category="model_checking",
